@@ -104,6 +104,19 @@ func hView(c M) M {
 	fakeNow = time.Date(2020, 1, 1, 12, 0, 0, 0, caseLoc)
 	app.VerifNow = func() time.Time { return fakeNow }
 	config := app.NewDefaultConfig(tf.COLOUR_THEME_NO_COLOUR)
+	// the groups of observations the case asks for (all of them if it does not say)
+	want := strs(c, "want")
+	has := func(g string) bool {
+		if len(want) == 0 {
+			return true
+		}
+		for _, w := range want {
+			if w == g {
+				return true
+			}
+		}
+		return false
+	}
 
 	p1 := runFile(home, config, []string{"print", "--no-style", "--no-warn"}, file)
 	o["print_code"] = p1.code
@@ -119,11 +132,14 @@ func hView(c M) M {
 		rp := projectParse(serial, p1.out)
 		o["reparsed"] = M{"ok": rp["ok"], "records": rp["records"]}
 	}
-	j := runFile(home, config, []string{"json"}, file)
-	o["json_code"] = j.code
-	o["json_raw"] = j.out // decoded by the supervisor with an independent JSON parser
-	jp := runFile(home, config, []string{"json", "--pretty"}, file)
-	o["json_pretty_raw"] = jp.out
+	var j cliResult
+	if has("json") {
+		j = runFile(home, config, []string{"json"}, file)
+		o["json_code"] = j.code
+		o["json_raw"] = j.out // decoded by the supervisor with an independent JSON parser
+		jp := runFile(home, config, []string{"json", "--pretty"}, file)
+		o["json_pretty_raw"] = jp.out
+	}
 	o["file"] = file
 	// the same text as a second file whose name sorts before the first one: errors of several files
 	file0 := filepath.Join(dir, "e.klg")
@@ -131,7 +147,7 @@ func hView(c M) M {
 	o["multi_code"] = 0
 	o["multi_err"] = ""
 	o["json_multi_raw"] = ""
-	if o["ok"] != true {
+	if o["ok"] != true && has("multi") {
 		os.WriteFile(file0, []byte(text), 0644)
 		pm := runFile(home, config, []string{"print", "--no-style", "--no-warn"}, file, file0)
 		o["multi_code"] = pm.code
@@ -140,7 +156,28 @@ func hView(c M) M {
 		o["json_multi_raw"] = jm.out
 	}
 
-	channels(o, home, config, dir, file, text)
+	if has("channels") {
+		channels(o, home, config, dir, file, text)
+	}
+	// the same views on a machine with several CPUs (the context then parses with that many workers)
+	cfg4, c4Err := app.NewConfig(app.FromDeterminedValues{NumCpus: 4}, app.FromEnvVars{GetVar: func(k string) string {
+		if k == "NO_COLOR" {
+			return "1"
+		}
+		return ""
+	}}, app.FromConfigFile{FileContents: ""})
+	if c4Err != nil {
+		panic(c4Err.Error())
+	}
+	if has("cpus") {
+		pp := runFile(home, cfg4, []string{"print", "--no-style", "--no-warn"}, file)
+		o["print_par_code"] = pp.code
+		o["print_par"] = bytesToSym(pp.out)
+		if has("json") {
+			o["json_sym"] = bytesToSym(j.out)
+			o["json_par_sym"] = bytesToSym(runFile(home, cfg4, []string{"json"}, file).out)
+		}
+	}
 
 	// a reconcile that changes nothing must reproduce the text
 	o["noop"] = ""
@@ -158,7 +195,7 @@ func hView(c M) M {
 	// with one CPU and with several (the context then parses in parallel)
 	o["noop_file_ran"] = false
 	o["noop_files"] = []string{}
-	if errs == nil && len(rs) > 0 {
+	if errs == nil && len(rs) > 0 && has("noop") {
 		got := []string{}
 		ran := true
 		for _, cpus := range []int{1, 3} {
